@@ -48,16 +48,14 @@ def main():
         except Exception:
             print('regen: Gen/%s FAILED (translator is fail-closed)' % name)
             traceback.print_exc(file=sys.stdout)
-            if i < core_jobs:
-                rc = 1
-            else:
-                # a per-property translator failed: remove its stale output so that exactly the
-                # properties depending on it stop compiling (fail-closed for them only)
-                for ext in ('.v', '.vo', '.vos', '.vok', '.glob'):
-                    try:
-                        os.remove(os.path.join(out, name[:-2] + ext))
-                    except OSError:
-                        pass
+            # a translator failed: remove its stale output so that exactly the properties whose Coq
+            # files depend on it stop compiling (fail-closed for them only).  (Gen/Facts.v is written
+            # fact by fact: a fact that cannot be extracted is left out of the file.)
+            for ext in ('.v', '.vo', '.vos', '.vok', '.glob'):
+                try:
+                    os.remove(os.path.join(out, name[:-2] + ext))
+                except OSError:
+                    pass
     return rc
 
 
